@@ -8,6 +8,8 @@ import (
 	"fmt"
 	"os"
 	"os/exec"
+	"runtime"
+	"runtime/debug"
 	"sort"
 	"strings"
 	"sync"
@@ -88,8 +90,19 @@ func issuesKey(is []e3Issue) string {
 	return strings.Join(s, " | ")
 }
 
+var e3Runs int
+
 // e3RunOne executes one schedule of a scenario and evaluates all oracles.
 func e3RunOne(sc e3Scenario, prefix []int) (*vsched.Execution, []e3Issue, string) {
+	// The happens-before detector keys its shadow state by address. The garbage collector is off
+	// while executions run, so no address is reused inside an execution (a freed per-request
+	// object whose address is handed to another thread would look like a race); memory is
+	// collected between executions.
+	e3Runs++
+	if e3Runs%64 == 1 {
+		debug.SetGCPercent(-1)
+		runtime.GC()
+	}
 	inst := sc.New()
 	x := vsched.RunOnce(inst.Bodies, prefix, !sc.NoRaces, 0)
 	var issues []e3Issue
@@ -304,11 +317,14 @@ func e3RunAll(run *h.Run, findingOf func(v e3Violation) string) []e3Result {
 	}
 	run.Cov["scenarios"] = per
 	run.Cov["schedules"] = sched
-	run.Cov["states"] = points
-	run.Cov["transitions"] = decisions
-	run.Cov["traces_validated_against_impl"] = sched
-	run.Cov["evaluations"] = sched
+	addCov(run, "states", points)
+	addCov(run, "transitions", decisions)
+	addCov(run, "traces_validated_against_impl", sched)
+	addCov(run, "evaluations", sched)
 	run.Cov["deadlocked_executions"] = deadlocks
+	if prev, ok := run.Cov["exhaustive"].(bool); ok {
+		exhaustive = exhaustive && prev
+	}
 	run.Cov["exhaustive"] = exhaustive
 	run.Cov["min_distinct_outcomes_per_scenario"] = minOutcomes
 	if data, err := os.ReadFile(os.Getenv("VERIF_INSTR_REPORT")); err == nil {
@@ -358,6 +374,26 @@ func e3FreeRun(run *h.Run) {
 	} else if err != nil {
 		run.Broken(fmt.Sprintf("free-running pass failed: %v: %s", err, tailStr(text, 1500)))
 	}
+}
+
+// e3Merge runs the concurrent part of a mixed (E1/E2 + E3) check and adds its coverage.
+func e3Merge(run *h.Run) {
+	e3RunAll(run, nil)
+	addCov(run, "distinct_nontrivial", toInt(run.Cov["schedules"]))
+}
+
+func toInt(v any) int {
+	switch x := v.(type) {
+	case int:
+		return x
+	case int64:
+		return int(x)
+	}
+	return 0
+}
+
+func addCov(run *h.Run, key string, n int) {
+	run.Cov[key] = toInt(run.Cov[key]) + n
 }
 
 func lenOf(v any) int {
